@@ -340,7 +340,7 @@ PROPS = {
     },
     'C19': {
         'units': ['unitB', 'unitD'],
-        'obligations': ['B.', 'D.mem.parse', 'D.table.parse', 'D.global.parse', 'D.import.parse', 'D.export.parse', 'D.mem.emit', 'D.table.emit', 'D.global.emit', 'D.import.emit', 'D.export.emit', 'D.data.parse', 'D.data.reserve', 'D.data.count', 'D.data.emit_data_count', 'D.elem.parse.body', 'D.elem.emit.body'],
+        'obligations': ['B.', 'D.mem.parse', 'D.table.parse', 'D.global.parse', 'D.import.parse', 'D.export.parse', 'D.mem.emit', 'D.table.emit', 'D.global.emit', 'D.import.emit', 'D.export.emit', 'D.data.parse', 'D.data.reserve', 'D.data.count', 'D.data.emit_data_count', 'D.elem.parse.body', 'D.elem.emit.body', 'D.func.declare'],
         'assumptions': ['A-deps', 'A-std', 'A-iter', 'A-limits', 'A-extract', 'A-verus'],
         'rules': 'R1 R2 R4 R6 R9; panic mode: absent',
         'claimed': [
@@ -350,7 +350,7 @@ PROPS = {
         ],
         'unclaimed': [
             'get_K_index bodies (Option::cloned().unwrap_or_else(|| panic!)): assumed contract',
-            'push_local / locals index space; functions and types push sites; hand-off of the maps to custom sections (unit I proves the call order only)',
+            'push_local / locals index space, type push sites (parse_types), function emit order; hand-off of the maps to custom sections (unit I proves the call order only)',
         ],
         'standins': [
             {'fn': 'both maps as extension code sees them', 'argv': ['maps'],
